@@ -112,7 +112,13 @@ class TaskScheduler(object):
                 self._schedule_batch(task.batch)
                 self._tasks.pop()
             else:
-                task._compute()
+                try:
+                    task._compute()
+                except Exception as error:
+                    # The failure belongs to the future, not to the scheduler: it is
+                    # delivered to the tasks awaiting it when they unwrap its value.
+                    if not task.is_computed():
+                        task.set_error(error)
                 self._tasks.pop()
 
     def _schedule_batch(self, batch):
